@@ -26,41 +26,53 @@ def draw_once(ctx, pid):
         if f is None:
             continue
         name = suf.split('::')[-2]
-        # the cache cell: self.<field> compared with 0 in the entry block
-        unset = None
-        t0 = f.blocks[0]['term']
-        if t0['t'] == 'switch':
-            c = f.cond_of(0, frozenset(['else']))
-            if c['kind'] == 'Eq' and is_const(c['b'], 0) and c['a'][0] == 'field' and norm(c['a'][1]) == ('param', 1, f.local_name(1)):
-                unset = c
-        if unset is None:
-            ctx.anchor_lost(rule, suf + ': `self.<cache> == 0` test on entry')
-            continue
-        cell = unset['a']
+        # the cache cell: a field of self whose "unset" test (sentinel 0, or Option::None) guards the draw
+        import e9
         draws = [(bi, t) for bi, t, p in f.calls() if is_draw_call(f, bi, t, p) and short(p) != 'thread_rng']
         rngs = [(bi, t) for bi, t, p in f.calls() if short(p) == 'thread_rng' or t['callee'].get('krate') in e1.RNG_CRATES]
-        guarded = all(any(c['switch'] == 0 and c.get('truth') is True for c in f.conds(bi)) for bi, t in draws + rngs)
+        cell = None
+        for bi, t in draws + rngs:
+            for c in f.conds(bi):
+                x = e9.is_unset_test(c)
+                if x is not None and x[0] == 'field' and norm(x[1]) == ('param', 1, f.local_name(1)):
+                    cell = x
+        if cell is None:
+            ctx.anchor_lost(rule, suf + ': `unset` test of the cached draw guarding the RNG call')
+            continue
+
+        def unset_at(bi):
+            return any(e9.is_unset_test(c, cell) is not None for c in f.conds(bi))
+
+        def set_at(bi):
+            return any(e9.is_set_test(c, cell) is not None for c in f.conds(bi))
+        guarded = all(unset_at(bi) for bi, t in draws + rngs)
         ctx.verdict(bool(draws) and guarded, rule, '%s:%s:draw-only-when-unset' % (rule, name),
-                    'every RNG call is control dependent on the true edge of `cached == 0`', f.where(draws[0][0]) if draws else f.where(0),
+                    'every RNG call is control dependent on the "cache unset" edge (`cached == 0` / `None`)', f.where(draws[0][0]) if draws else f.where(0),
                     '%d RNG-related call(s), all on the unset edge: %s' % (len(draws + rngs), guarded), breaks='an infoset is re-drawn within a pass: nodes of one infoset follow different samples')
-        # the draw is stored as draw + 1 before returning it
+        # the draw is stored (as draw + 1, or Some(draw)) before returning it
         draw_e = f.call_expr(draws[-1][1], draws[-1][0]) if draws else None
         stored = False
         for bi, st, pl, rhs in q.stores(f):
-            if norm(pl) == norm(cell):
+            if norm(pl) == norm(cell) and unset_at(bi) and draw_e is not None:
                 r = strip_refs(rhs)
-                if r[0] == 'bin' and r[1] == 'Add' and is_const(r[3], 1) and draw_e is not None and strip_refs(r[2]) == draw_e and \
-                        any(c['switch'] == 0 and c.get('truth') is True for c in f.conds(bi)):
+                if r[0] == 'bin' and r[1] == 'Add' and is_const(r[3], 1) and strip_refs(r[2]) == draw_e:
                     stored = True
-        ctx.verdict(stored, rule, '%s:%s:cache-set' % (rule, name), 'on the drawing path the cache cell is assigned `draw + 1`', f.where(0), 'found: %s' % stored,
+                if r[0] == 'agg' and r[1].endswith('Option::Some') and r[2] and strip_refs(r[2][0]) == draw_e:
+                    stored = True
+        ctx.verdict(stored, rule, '%s:%s:cache-set' % (rule, name), 'on the drawing path the cache cell is assigned the draw (`draw + 1` / `Some(draw)`)', f.where(0), 'found: %s' % stored,
                     breaks='the next node of the same infoset draws again')
         # returned values
-        vals = q.multi_def_values(f, 0)
-        ret_draw = any(draw_e is not None and strip_refs(v) == draw_e and any(c['switch'] == 0 and c.get('truth') is True for c in cs) for b, cs, v in vals)
-        ret_cached = any(strip_refs(v)[0] == 'bin' and strip_refs(v)[1] == 'Sub' and norm(strip_refs(v)[2]) == norm(cell) and is_const(strip_refs(v)[3], 1) and
-                         any(c['switch'] == 0 and c.get('truth') is False for c in cs) for b, cs, v in vals)
-        ctx.verdict(ret_draw and ret_cached, rule, '%s:%s:returns' % (rule, name), 'the drawing path returns the draw, the other path returns `cached - 1` and reaches no RNG', f.where(0),
-                    'returns draw: %s; returns cached-1: %s' % (ret_draw, ret_cached), breaks='the cached outcome is off by one from the drawn one')
+        vals = q.multi_def_values(f, 0) or [(0, [], f.local_expr(0))]
+        ret_draw = any(draw_e is not None and strip_refs(v) == draw_e and unset_at(b) for b, cs, v in vals)
+
+        def is_cached_value(v):
+            v = strip_refs(v)
+            if v[0] == 'bin' and v[1] == 'Sub' and norm(v[2]) == norm(cell) and is_const(v[3], 1):
+                return True
+            return v[0] == 'field' and v[2] == '0' and strip_refs(v[1])[0] == 'downcast' and strip_refs(v[1])[2] == 'Some' and norm(strip_refs(v[1])[1]) == norm(cell)
+        ret_cached = any(is_cached_value(v) and set_at(b) for b, cs, v in vals)
+        ctx.verdict(ret_draw and ret_cached, rule, '%s:%s:returns' % (rule, name), 'the drawing path returns the draw, the other path returns the cached draw and reaches no RNG', f.where(0),
+                    'returns draw: %s; returns cached value: %s' % (ret_draw, ret_cached), breaks='the cached outcome is off by one from the drawn one')
 
 
 def distributions(ctx, pid):
@@ -75,7 +87,7 @@ def distributions(ctx, pid):
             idx = r[2][0]
             w = q.find_sub(idx, lambda s: s[0] == 'call' and 'WeightedAliasIndex' in s[1] and short(s[1]) == 'new')
             src = q.find_sub(w, lambda s: s[0] == 'param') if w else None
-            ok = w is not None and src is not None and src[1] == 1 and is_const(r[2][1], 0)
+            ok = w is not None and src is not None and src[1] == 1 and any(is_unset_value(x) for x in r[2][1:])
         ctx.verdict(ok, rule, rule + ':chance-alias-table', 'the chance sampler is an alias table over exactly the weights it is given, and starts unset (cached = 0)', f.where(0), detail,
                     breaks='chance outcomes are not drawn proportionally to the declared weights')
     # every SampledChance::new call site passes the infoset's probs()
@@ -104,16 +116,33 @@ def distributions(ctx, pid):
                         breaks='the non-updating player is sampled from the wrong distribution')
 
 
+def cache_field(lib, adt_suffix):
+    """name of the cached-draw field of a sampler struct, by type (usize sentinel or Option<usize>)"""
+    for name, adt in lib.adts.items():
+        if name == adt_suffix or name.endswith('::' + adt_suffix):
+            for n, ty in zip(adt[0].get('fields', []), adt[0].get('ftys', [])):
+                if ty == 'usize' or ty.replace(' ', '') in ('std::option::Option<usize>', 'Option<usize>'):
+                    return n
+    return 'cached'
+
+
+def is_unset_value(rhs):
+    r = strip_refs(rhs)
+    return is_const(r, 0) or (r[0] == 'agg' and r[1].endswith('Option::None'))
+
+
 def resets(ctx, pid):
     rule = '%s.reset' % pid
+    cf_chance = cache_field(ctx.lib, 'SampledChance')
+    cf_info = cache_field(ctx.lib, 'CachedInfoset')
     f = ctx.fn('lib', 'solve::data::SampledChance::reset', rule)
     if f is not None:
-        ok = any(not f.conds(bi) and pl[0] == 'field' and pl[2] == 'cached' and is_const(rhs, 0) for bi, st, pl, rhs in q.stores(f))
+        ok = any(not f.conds(bi) and pl[0] == 'field' and pl[2] == cf_chance and is_unset_value(rhs) for bi, st, pl, rhs in q.stores(f))
         ctx.verdict(ok, rule, rule + ':SampledChance::reset', 'reset() assigns cached = 0 unconditionally', f.where(0), 'found: %s' % ok, breaks='a chance infoset keeps last pass\'s outcome forever')
     f = ctx.fn('lib', '<solve::external::CachedInfoset as solve::external::ActiveInfo>::advance', rule)
     if f is not None:
         rets = [bi for bi in f.reach if f.blocks[bi]['term']['t'] == 'return']
-        ok = any(pl[0] == 'field' and pl[2] == 'cached' and is_const(rhs, 0) and all(f.dominates(bi, r) for r in rets) for bi, st, pl, rhs in q.stores(f))
+        ok = any(pl[0] == 'field' and pl[2] == cf_info and is_unset_value(rhs) and all(f.dominates(bi, r) for r in rets) for bi, st, pl, rhs in q.stores(f))
         ctx.verdict(ok, rule, rule + ':CachedInfoset::advance', 'advance() assigns cached = 0 on every path', f.where(0), 'found: %s' % ok, breaks='a player infoset keeps the action sampled in an earlier pass')
     # the advance() of every sampled chance wrapper reaches reset
     lib = ctx.lib
@@ -206,12 +235,22 @@ def events_in(lib, f, blocks):
             if k:
                 ev.append((bi, k[0], k[1]))
 
-    snapshot = list(ev)
+    # position of an event for ordering: the header of the outermost proper sub-loop of the unit containing it
+    # (a loop body does not dominate what follows the loop; its header does)
+    def anchor(bi):
+        best = bi
+        size = -1
+        for h, body in f.loops:
+            if bi in body and body < set(blocks) and len(body) > size:
+                best, size = h, len(body)
+        return best
+    snapshot = [(anchor(b), k, e, b) for b, k, e in ev]
 
     def key(a):
-        return sum(1 for b, _, _ in snapshot if f.dominates(b, a[0]) and b != a[0])
-    ev = sorted(snapshot, key=key)
-    ordered = all(f.dominates(ev[i][0], ev[i + 1][0]) for i in range(len(ev) - 1))
+        return sum(1 for b, _, _, _ in snapshot if f.dominates(b, a[0]) and b != a[0])
+    srt = sorted(snapshot, key=key)
+    ordered = all(f.dominates(srt[i][0], srt[i + 1][0]) for i in range(len(srt) - 1))
+    ev = [(b, k, e) for _, k, e, b in srt]
     return ev, ordered
 
 
@@ -249,15 +288,19 @@ def pass_structure(ctx, pid):
             while i < len(seq) and seq[i].startswith('T:') and seq[i] != 'T:single_player_iter':
                 i += 1
             last_t = ev[i - 1]
-            if i >= len(seq) or not seq[i].startswith('R:'):
+            # after the traversals of a pass: the reset of the chance table and the advance of the updated
+            # player's slice, in either order (they touch disjoint state), before the next traversal
+            ps, nreset = [], 0
+            while i < len(seq) and not seq[i].startswith('T:'):
+                if seq[i].startswith('R:'):
+                    nreset += 1
+                elif seq[i] == 'P':
+                    ps.append(ev[i])
+                i += 1
+            if nreset < 1:
                 ok = False
                 break
-            i += 1
             passes += 1
-            ps = []
-            while i < len(seq) and seq[i] == 'P':
-                ps.append(ev[i])
-                i += 1
             pass_pairs.append((last_t, ps))
         want_passes = PASSES.get(name.split('::')[-1])
         if want_passes is not None and passes != want_passes:
